@@ -18,7 +18,7 @@ def link_fault_items(rng, timeout_ns, prev_keys, version, agent_cfg, lat):
         kind = rng.choice(["rid", "rid", "community-or-user", "msgid-or-version", "stale", "truncate", "dup-late", "engine", "reflect"])
         it = {"k": "genuine", "delay_ns": t}
         if kind == "rid":
-            it["rewrite"] = {"request-id": rng.choice(["prev", "zero", "plus1", "xor1", "neg", rng.randrange(2**31)])}
+            it["rewrite"] = {"request-id": rng.choice(["prev", "zero", "plus1", "xor1", "neg", "bit31", "bit32", "hi", rng.randrange(2**31)])}
         elif kind == "community-or-user":
             if version == "v3":
                 it["rewrite"] = {"user": rng.choice([b"other".hex(), b"".hex(), b"U1".hex()])}
@@ -26,7 +26,9 @@ def link_fault_items(rng, timeout_ns, prev_keys, version, agent_cfg, lat):
                 it["rewrite"] = {"community": rng.choice([b"other".hex(), b"".hex(), b"PUBLIC".hex(), b"public0".hex()])}
         elif kind == "msgid-or-version":
             if version == "v3":
-                it["rewrite"] = {"msg-id": rng.choice(["prev", "zero", "plus1", "xor1", rng.randrange(2**31)])}
+                it["rewrite"] = {"msg-id": rng.choice(["prev", "zero", "plus1", "xor1", "bit31", "bit32", rng.randrange(2**31)])}
+                if rng.random() < 0.4:
+                    it["rewrite"]["engine-id"] = rng.choice(["80001f8880aabbccde", "0102030405"])
             else:
                 it["rewrite"] = {"version": {"v1": 1, "v2c": 0}[version]}
         elif kind == "engine":
@@ -92,7 +94,8 @@ class C04(Prop):
         for s in range(nsess):
             if version == "v3":
                 level = rng.choice(["noauth", "md5", "sha", "md5-des", "sha-aes"])
-                a, cfg = v3_setup(rng, level, discover=False, ktypes=["localized", "master"])
+                a, cfg = v3_setup(rng, level, discover=(s == 0 and rng.random() < 0.4), ktypes=["localized", "master"])
+                a["discovery_time"] = "real"
                 if s == 0:
                     agent.update(a)
                 else:
@@ -113,6 +116,13 @@ class C04(Prop):
         lat = gen.latency(rng, 1000, 5_000_000)
         for s in range(nsess):
             prev_keys = []
+            if version == "v3" and not sessions[s].get("engine_id"):
+                # discovery first: its two exchanges get link faults too
+                opid += 1
+                ops.append({"id": opid, "s": s, "op": "refresh"})
+                for k in (1, 2):
+                    if rng.random() < 0.7:
+                        scripts["%d:%d" % (opid, k)] = {"replies": link_fault_items(rng, sessions[s]["timeout_ns"], [], version, agent, lat)}
             for _ in range(rng.randint(1, maxreq)):
                 opid += 1
                 if rng.random() < 0.7:
@@ -141,6 +151,9 @@ class C04(Prop):
         stamps = {}  # session -> {serial: request id}
         for res in run.results:
             op = res["op"]
+            if op["op"] == "refresh":
+                out += self.check_refresh(run, res)
+                continue
             if op["op"] not in ("get", "get_many"):
                 continue
             s = res["s"]
@@ -184,6 +197,38 @@ class C04(Prop):
             elif kind == oracle.SOCKERR:
                 pass
         return out
+
+
+def _refresh(self, run, res):
+    """refresh() = up to two exchanges; each must end as the acceptance model says."""
+    out = []
+    s = res["s"]
+    for n, ex in enumerate(run.exchanges(res)):
+        kind, label, verdicts = oracle.exchange_verdict(run, s, ex)
+        if kind == UNKNOWN:
+            return out
+        decisive = next((i for i, v in enumerate(verdicts) if v[0] != SKIP), None)
+        if decisive is not None and decisive < len(ex["rx"]) - 1:
+            return out + [V("C04.continued-after-decisive", "refresh exchange %d: %s datagram #%d did not end the wait" % (n + 1, kind, decisive), kind=kind)]
+        if kind == MATCH:
+            if any(v[0] == SKIP for v in verdicts):
+                run.sim.count("probe.skip-then-match")
+            continue
+        if kind == REJECT:
+            if not ("exc" in res and oracle.exc_is(res["exc"], "SnmpDecodeError")):
+                out.append(V("C04.reject-not-decode-error", "refresh: undecodable datagram ended with %s" % _short(res), why=label.get("why")))
+            return out
+        if kind == "TIMEOUT":
+            if not ("exc" in res and oracle.exc_is(res["exc"], "TimeoutError")):
+                out.append(V("C04.delivered-nonmatching", "refresh exchange %d saw only non-matching datagrams but ended with %s" % (n + 1, _short(res)), op="refresh"))
+            return out
+        return out
+    if "exc" in res and oracle.exc_is(res["exc"], "TimeoutError"):
+        out.append(V("C04.matching-reply-not-delivered", "refresh: every exchange received a matching reply, yet it ended with TimeoutError", op="refresh"))
+    return out
+
+
+C04.check_refresh = _refresh
 
 
 def _stamps(n):
